@@ -1,6 +1,8 @@
 //! Structs and functions for generating log messages and CWE warnings.
 
 use crate::prelude::*;
+#[cfg(cwe_checker_verif)]
+use crate::verif_std as std;
 use std::{collections::BTreeMap, thread::JoinHandle};
 
 /// A CWE warning message.
